@@ -260,7 +260,7 @@ def tiny_cases(draw, n=14):
 
 CLAUSES = [
     Clause('generated-languages', check_case, kind='random', strategy=lambda: cases(12),
-           budget={'quick': 5000, 'thorough': 40000}),
+           budget={'quick': 5000, 'thorough': 120000}),
     Clause('tiny-language', check_case, kind='random', strategy=lambda: tiny_cases(14),
-           budget={'quick': 2000, 'thorough': 15000}),
+           budget={'quick': 2000, 'thorough': 45000}),
 ]
